@@ -22,6 +22,7 @@ Definition op_of_lop (o : lop) : op :=
   match o with
   | LWhole => OWhole | LOne f ai => OOne f ai | LBatch fs ai => OBatch fs ai
   | LRaw f ai => ORaw f ai | LDecodeRaw f ai => ODecodeRaw f ai | LHeader c => OHeader c
+  | LFrames fs ai => OFrames fs ai
   end.
 
 Lemma lz_fresh_one_spec : forall c pd f ai, valid_c c -> enough (c_fmt c) pd ->
@@ -138,6 +139,34 @@ Proof.
   - destruct (snd (lz_batch_loop st (f :: r) ai)) eqn:S; rewrite <- B1; (split; [exact S|split; [exact B2|exact B3]]).
 Qed.
 
+(* get_frames with the transforms off on a lazily read image = get_stored_frames: same answer and same
+   cache afterwards, in every state, for every request *)
+Lemma lz_frames_one_eq : forall st f ai, lz_frames_one st f ai = lz_one st f ai.
+Proof.
+  intros st f ai. unfold lz_frames_one, lz_one. cbv zeta.
+  destruct (index_total (f_frames (c_fmt (l_c st))) f ai) as [(i & E & Hi) | E]; rewrite E; [|reflexivity].
+  destruct (l_cache st) as [k|]; [|reflexivity].
+  destruct (f_frames (c_fmt (l_c st)) =? 1) eqn:N; [|reflexivity].
+  assert (i = 0) by lia. subst i. reflexivity.
+Qed.
+
+Lemma lz_frames_loop_eq : forall fs st ai, lz_frames_loop st fs ai = lz_batch_loop st fs ai.
+Proof.
+  induction fs as [|f r IH]; intros st ai; cbn [lz_frames_loop lz_batch_loop]; [reflexivity|].
+  rewrite lz_frames_one_eq. destruct (snd (lz_one st f ai)); [|reflexivity]. now rewrite IH.
+Qed.
+
+Lemma lz_frames_eq : forall fs st ai, lz_frames st fs ai = lz_batch st fs ai.
+Proof.
+  intros [|f0 r] st ai; unfold lz_frames, lz_batch; [reflexivity|].
+  set (n := f_frames (c_fmt (l_c st))).
+  destruct (std_index n f0 ai) as [i|k] eqn:E.
+  - rewrite lz_frames_loop_eq. cbv zeta. destruct (snd (lz_batch_loop st (f0 :: r) ai)); reflexivity.
+  - assert (L : lz_batch_loop st (f0 :: r) ai = (st, Err k)).
+    { cbn [lz_batch_loop]. unfold lz_one. cbv zeta. fold n. rewrite E. reflexivity. }
+    cbv zeta. rewrite L. reflexivity.
+Qed.
+
 Lemma lz_decode_raw_spec : forall st f ai, valid_c (l_c st) -> enough (c_fmt (l_c st)) (l_pd st) ->
   lz_decode_raw st f ai = ref_one (l_c st) (l_pd st) f ai.
 Proof.
@@ -152,7 +181,7 @@ Lemma lstep_spec : forall st o, valid_c (l_c st) -> enough (c_fmt (l_c st)) (l_p
   lcoherent (fst (lstep st o)).
 Proof.
   intros st o Hv He Hc.
-  destruct o as [|f ai|fs ai|f ai|f ai|c']; unfold lstep, ref_step, op_of_lop; cbv zeta; cbn [fst snd].
+  destruct o as [|f ai|fs ai|f ai|f ai|c'|fs ai]; unfold lstep, ref_step, op_of_lop; cbv zeta; cbn [fst snd].
   - destruct (lz_whole_spec st Hv He Hc) as (W1 & W2 & W3 & _). rewrite W1.
     split; [reflexivity|split; [exact W2|exact W3]].
   - destruct (lz_one_spec st f ai Hv He Hc) as (S1 & S2 & S3). rewrite S1.
@@ -162,6 +191,8 @@ Proof.
   - rewrite raw_frame_lazy_eager. split; [reflexivity|split; [reflexivity|exact Hc]].
   - rewrite lz_decode_raw_spec by assumption. split; [reflexivity|split; [reflexivity|exact Hc]].
   - unfold lcontent, lcoherent in *. cbn [l_c l_pd l_cache fst snd]. split; [reflexivity|split; [reflexivity|exact Hc]].
+  - rewrite lz_frames_eq. destruct (lz_batch_spec fs st ai Hv He Hc) as (S1 & S2 & S3). rewrite S1.
+    split; [reflexivity|split; [exact S2|exact S3]].
 Qed.
 
 (* ANY history of reads and header edits, from any coherent state: every answer is the one a
